@@ -24,10 +24,11 @@ func init() {
 		ID: "C02",
 		Rule: "plan = sync policy + caller/database choice + write workload of every family + clock advances + crash points (kill or power loss at the k-th file operation / hook inside a logged write, or at a command boundary) + 1-3 crash-recover-write-restart cycles; " +
 			"non-trivial = at least one restore was checked after >=1 acknowledged write; distinct = hash of (policy, fault kind and site sequence, command-name sequence)",
-		Gen:  func(r *Rng, tier string, idx int) *Plan { return genAOF(r, tier, idx, false) },
-		Run:  func(t *testing.T, p *Plan) *Outcome { return runAOF(t, p, "C02") },
-		Real: []string{"aof.Engine", "aof/log.Store (Write/Sync/Restore/Truncate)", "aof/preamble.Store", "handleCommand logging path", "NewSugarDB restore path", "all write handlers", "OS file system (tmpfs)"},
-		Stub: []string{"durability: shadow model decides which un-synced bytes survive a power loss", "TCP sockets"},
+		FlakySig: "C02/nondeterministic-replay",
+		Gen:      func(r *Rng, tier string, idx int) *Plan { return genAOF(r, tier, idx, false) },
+		Run:      func(t *testing.T, p *Plan) *Outcome { return runAOF(t, p, "C02") },
+		Real:     []string{"aof.Engine", "aof/log.Store (Write/Sync/Restore/Truncate)", "aof/preamble.Store", "handleCommand logging path", "NewSugarDB restore path", "all write handlers", "OS file system (tmpfs)"},
+		Stub:     []string{"durability: shadow model decides which un-synced bytes survive a power loss", "TCP sockets"},
 		Assumptions: []string{
 			"ordered-journal disk model: fsync makes all earlier writes to that file durable; un-synced appends survive as a prefix, last write possibly torn",
 			"the live instance's dump after each acknowledged command defines the admissible restored states (no reference model)",
@@ -37,10 +38,11 @@ func init() {
 		ID: "C09",
 		Rule: "C02's plan + REWRITEAOF at arbitrary positions (first, repeated, after crashes) + crash points at every file operation/hook of the rewrite + a concurrent writer whose keyspace steps are interleaved with the rewrite's steps by the dice; " +
 			"non-trivial = at least one rewrite ran and a restore was checked; distinct = hash of (policy, fault site, interleaving, command-name sequence)",
-		Gen:  func(r *Rng, tier string, idx int) *Plan { return genAOF(r, tier, idx, true) },
-		Run:  func(t *testing.T, p *Plan) *Outcome { return runAOF(t, p, "C09") },
-		Real: []string{"aof.Engine.RewriteLog", "preamble.Store.CreatePreamble/Restore", "log.Store.Truncate", "getState copy protocol", "all write handlers", "OS file system (tmpfs)"},
-		Stub: []string{"durability: shadow model", "TCP sockets", "goroutine scheduler choice"},
+		FlakySig:    "C09/nondeterministic-replay",
+		Gen:         func(r *Rng, tier string, idx int) *Plan { return genAOF(r, tier, idx, true) },
+		Run:         func(t *testing.T, p *Plan) *Outcome { return runAOF(t, p, "C09") },
+		Real:        []string{"aof.Engine.RewriteLog", "preamble.Store.CreatePreamble/Restore", "log.Store.Truncate", "getState copy protocol", "all write handlers", "OS file system (tmpfs)"},
+		Stub:        []string{"durability: shadow model", "TCP sockets", "goroutine scheduler choice"},
 		Assumptions: []string{"same disk model as C02"},
 	})
 }
@@ -111,20 +113,20 @@ type aofRun struct {
 	tcpdb    int64
 	embdb    int64
 	// acknowledged states since the last recovery
-	states   []map[string]string
-	syncedUp int // index of the last state known durable (log synced after it was acknowledged)
-	names    []string
-	rewrites int
-	restores int
-	acked    int
-	minDl    map[string]int64 // db/key -> earliest deadline it ever carried (acknowledged states)
+	states                []map[string]string
+	syncedUp              int // index of the last state known durable (log synced after it was acknowledged)
+	names                 []string
+	rewrites              int
+	restores              int
+	acked                 int
+	minDl                 map[string]int64 // db/key -> earliest deadline it ever carried (acknowledged states)
 	rewritesSinceRecovery int
-	tainted               bool   // the preamble on disk was written from a state holding JSON-lossy values
+	tainted               bool // the preamble on disk was written from a state holding JSON-lossy values
 	crashSites            []string
-	rewriteCrashSite      string // set when a crash hit a REWRITEAOF in flight; cleared by the next completed rewrite
-	randKeys map[string]bool  // db/key touched by a write command whose effect is random by design (SPOP)
-	skipped  int
-	hasRewrite bool
+	rewriteCrashSite      string          // set when a crash hit a REWRITEAOF in flight; cleared by the next completed rewrite
+	randKeys              map[string]bool // db/key touched by a write command whose effect is random by design (SPOP)
+	skipped               int
+	hasRewrite            bool
 }
 
 var runCounter atomic.Int64
@@ -161,6 +163,7 @@ func (a *aofRun) boot(dir string) bool {
 		}
 	}
 	inst, err := a.s.Boot(id, cfg)
+	harnessEnvCheck(err)
 	if err != nil || inst.Panic != "" {
 		a.fail("restore-error/boot", fmt.Sprintf("instance construction on the recovered directory failed: %v %s", err, inst.Panic))
 		return false
@@ -594,7 +597,7 @@ func (a *aofRun) runSeq() {
 		op := p.Ops[i]
 		switch op.Kind {
 		case "advance":
-			a.s.Advance(time.Duration(op.N) * time.Millisecond)
+			a.s.AdvanceSync(time.Duration(op.N) * time.Millisecond)
 			a.names = append(a.names, "adv")
 			// the everysec goroutine may have synced: everything acknowledged so far is durable if no pending ops remain
 			if a.disk.PendingOps("aof/log.aof") == 0 {
@@ -613,6 +616,7 @@ func (a *aofRun) runSeq() {
 				_ = os.RemoveAll(img)
 				copyTree(a.disk.Dir, img)
 				a.s.KillInstance(a.inst.ID)
+				a.disk.CloseAll()
 				if !a.recover(a.nextImage(img), len(a.states)-1, nil, "clean") {
 					return
 				}
